@@ -600,6 +600,10 @@ def run(check, repo: Repo) -> None:
             c = _resolve(ccs, sub[0].right)
             ctxt = unparse(c)
             ok = sym and ctxt in ("(np.array(local.shape) - 1) // 2", "du", "(local.shape[0] - 1) // 2")
+            # n // 2 equals (n − 1) // 2 exactly when n is odd: with the symmetric sample vector arange(−du, du + 1) the patch has 2·du + 1 samples — always odd.
+            # (Two sites: a patch whose length can be even AND this spelling of the centre are off by one upsampled sample together; each alone is exact.)
+            if not ok and sym and ctxt in ("np.array(local.shape) // 2", "local.shape[0] // 2"):
+                ok = True
             why = f"peak − {ctxt}"
     check.decide(ok, "C13-R1", "cross_correlation_shift: the local peak index is re-centred by the patch's own centre index", why, mod.line(sh[0] if sh else ccs),
                  fail_detail=f"{why}: the patch samples offsets −du…+du (centre index du = (len−1)//2); subtracting anything else biases every "
